@@ -12,6 +12,7 @@ type SinkPC struct {
 	mu     sync.Mutex
 	Out    [][]byte
 	Inbox  [][]byte
+	From   []net.Addr // source address of Inbox[i] (nil or missing: Remote)
 	Local  net.Addr
 	Remote net.Addr
 }
@@ -30,7 +31,14 @@ func (s *SinkPC) ReadFrom(p []byte) (int, net.Addr, error) {
 	}
 	d := s.Inbox[0]
 	s.Inbox = s.Inbox[1:]
-	return copy(p, d), s.Remote, nil
+	from := s.Remote
+	if len(s.From) > 0 {
+		if s.From[0] != nil {
+			from = s.From[0]
+		}
+		s.From = s.From[1:]
+	}
+	return copy(p, d), from, nil
 }
 func (s *SinkPC) WriteTo(p []byte, a net.Addr) (int, error) {
 	s.mu.Lock()
